@@ -118,9 +118,12 @@ func NewKeywordCaseRule(preferredStyle CaseStyle) *KeywordCaseRule {
 func (r *KeywordCaseRule) Check(ctx *linter.Context) ([]linter.Violation, error) {
 	violations := []linter.Violation{}
 
+	m := linter.LexMap(strings.Join(ctx.Lines, "\n"))
+	off := 0
 	for lineNum, line := range ctx.Lines {
 		// Tokenize the line to find keywords
-		words := tokenizeLine(line)
+		words := codeWords(line, m[off:off+len(line)])
+		off += len(line) + 1
 
 		for _, word := range words {
 			upperWord := strings.ToUpper(word.text)
@@ -163,61 +166,38 @@ type wordToken struct {
 	column int // 1-indexed column position in the line
 }
 
-// tokenizeLine extracts words from a line with their column positions.
+// tokenizeLine extracts the words of a stand-alone line with their column positions.
+func tokenizeLine(line string) []wordToken {
+	return codeWords(line, linter.LexMap(line))
+}
+
+// isWordRune reports whether ch continues (inWord) or starts a word.
+func isWordRune(ch rune, inWord bool) bool {
+	return unicode.IsLetter(ch) || ch == '_' || (inWord && unicode.IsDigit(ch))
+}
+
+// codeWords extracts the words of the code of a line with their column positions.
 //
 // Parses the line character by character, extracting sequences of letters, digits,
-// and underscores as words. Skips content inside string literals (both single and
-// double quoted) to avoid extracting keywords from SQL string values.
+// and underscores as words. Only code is looked at: m holds the lexical class of every
+// byte of the line (linter.LexMap over the whole text), so words inside string literals,
+// quoted identifiers and comments - also multi-line ones - are not keywords.
 //
 // Returns a slice of wordTokens representing each word and its position.
-func tokenizeLine(line string) []wordToken {
+func codeWords(line string, m []linter.LexClass) []wordToken {
 	words := []wordToken{}
-	inString := false
-	stringChar := rune(0)
 	wordStart := -1
-	currentWord := strings.Builder{}
 
 	for i, ch := range line {
-		// A line comment ends the code on this line: words inside it are not keywords
-		if !inString && ch == '-' && strings.HasPrefix(line[i:], "--") {
-			break
-		}
-
-		// Handle string literals - skip keywords inside strings
-		if !inString && (ch == '\'' || ch == '"' || ch == '`') {
-			inString = true
-			stringChar = ch
-			if wordStart >= 0 {
-				words = append(words, wordToken{
-					text:   currentWord.String(),
-					column: wordStart + 1, // 1-indexed
-				})
-				currentWord.Reset()
-				wordStart = -1
-			}
-			continue
-		}
-
-		if inString {
-			if ch == stringChar {
-				inString = false
-				stringChar = 0
-			}
-			continue
-		}
-
-		// Handle identifiers and keywords
-		if unicode.IsLetter(ch) || ch == '_' || (wordStart >= 0 && unicode.IsDigit(ch)) {
+		if m[i] == linter.LexCode && isWordRune(ch, wordStart >= 0) {
 			if wordStart < 0 {
 				wordStart = i
 			}
-			currentWord.WriteRune(ch)
 		} else if wordStart >= 0 {
 			words = append(words, wordToken{
-				text:   currentWord.String(),
+				text:   line[wordStart:i],
 				column: wordStart + 1, // 1-indexed
 			})
-			currentWord.Reset()
 			wordStart = -1
 		}
 	}
@@ -225,7 +205,7 @@ func tokenizeLine(line string) []wordToken {
 	// Don't forget the last word
 	if wordStart >= 0 {
 		words = append(words, wordToken{
-			text:   currentWord.String(),
+			text:   line[wordStart:],
 			column: wordStart + 1,
 		})
 	}
@@ -238,7 +218,8 @@ func tokenizeLine(line string) []wordToken {
 // Processes content line by line, converting keywords to the configured case style
 // while preserving:
 //   - Identifier case (table names, column names, aliases)
-//   - String literal content (keywords inside quotes are not changed)
+//   - The content of string literals, quoted identifiers and comments, byte for byte
+//     (also when they span several lines)
 //   - Whitespace and formatting
 //
 // The fix is applied to all keywords regardless of violations parameter, ensuring
@@ -247,9 +228,12 @@ func tokenizeLine(line string) []wordToken {
 // Returns the fixed content with all keywords in preferred case, and nil error.
 func (r *KeywordCaseRule) Fix(content string, violations []linter.Violation) (string, error) {
 	lines := strings.Split(content, "\n")
+	m := linter.LexMap(content)
 
+	off := 0
 	for i, line := range lines {
-		lines[i] = r.fixLine(line)
+		lines[i] = r.fixLine(line, m[off:off+len(line)])
+		off += len(line) + 1
 	}
 
 	return strings.Join(lines, "\n"), nil
@@ -257,73 +241,23 @@ func (r *KeywordCaseRule) Fix(content string, violations []linter.Violation) (st
 
 // fixLine fixes keyword case in a single line.
 //
-// Uses a state machine to track whether currently inside a string literal. For
-// words outside strings, checks if they're keywords and converts them to the
-// preferred case. Non-keywords are preserved unchanged.
+// Words of the code of the line that are keywords are converted to the preferred case;
+// every other byte (non-keywords, literals, comments, bytes that are not valid UTF-8) is
+// copied unchanged. m holds the lexical class of every byte of the line.
 //
 // Returns the fixed line with keywords in preferred case.
-func (r *KeywordCaseRule) fixLine(line string) string {
+func (r *KeywordCaseRule) fixLine(line string, m []linter.LexClass) string {
 	result := strings.Builder{}
-	inString := false
-	stringChar := rune(0)
-	wordStart := -1
-	currentWord := strings.Builder{}
+	result.Grow(len(line))
+	copied := 0 // line[:copied] has been written
 
-	for i, ch := range line {
-		// A line comment ends the code on this line: its text is copied unchanged
-		if !inString && ch == '-' && strings.HasPrefix(line[i:], "--") {
-			if wordStart >= 0 {
-				result.WriteString(r.convertKeyword(currentWord.String()))
-				currentWord.Reset()
-				wordStart = -1
-			}
-			result.WriteString(line[i:])
-			break
-		}
-
-		// Handle string literals - don't modify keywords inside strings
-		if !inString && (ch == '\'' || ch == '"' || ch == '`') {
-			// Flush current word first
-			if wordStart >= 0 {
-				result.WriteString(r.convertKeyword(currentWord.String()))
-				currentWord.Reset()
-				wordStart = -1
-			}
-			inString = true
-			stringChar = ch
-			result.WriteRune(ch)
-			continue
-		}
-
-		if inString {
-			result.WriteRune(ch)
-			if ch == stringChar {
-				inString = false
-				stringChar = 0
-			}
-			continue
-		}
-
-		// Handle identifiers and keywords
-		if unicode.IsLetter(ch) || ch == '_' || (wordStart >= 0 && unicode.IsDigit(ch)) {
-			if wordStart < 0 {
-				wordStart = i
-			}
-			currentWord.WriteRune(ch)
-		} else {
-			if wordStart >= 0 {
-				result.WriteString(r.convertKeyword(currentWord.String()))
-				currentWord.Reset()
-				wordStart = -1
-			}
-			result.WriteRune(ch)
-		}
+	for _, word := range codeWords(line, m) {
+		start := word.column - 1
+		result.WriteString(line[copied:start])
+		result.WriteString(r.convertKeyword(word.text))
+		copied = start + len(word.text)
 	}
-
-	// Don't forget the last word
-	if wordStart >= 0 {
-		result.WriteString(r.convertKeyword(currentWord.String()))
-	}
+	result.WriteString(line[copied:])
 
 	return result.String()
 }
